@@ -215,7 +215,7 @@ func runCheck(o checkOpts) *checkResult {
 				}
 			}
 			reachObls = append(reachObls, r.ReachChecks...)
-			if o.tier == "thorough" {
+			if o.tier == "thorough" || os.Getenv("GOVC_BLOCKREACH") != "" {
 				blockObls = append(blockObls, r.BlockReach...)
 			}
 			fsums = append(fsums, fsum{k, m.String(), len(r.Obls), n})
